@@ -97,6 +97,7 @@ impl Drop for ModelTransport {
     fn drop(&mut self) {
         let mut s = self.st.borrow_mut();
         s.log.push((crate::hal::tick(), TCall::Dropped));
+        crate::wake::unregister(Rc::as_ptr(&self.st) as usize, None);
         // like the real transports: reset on drop
         s.status = 0;
         for q in s.queues.iter_mut() {
@@ -130,6 +131,7 @@ impl Transport for ModelTransport {
             s.log.push((crate::hal::tick(), TCall::Notify(queue)));
             s.on_notify.take()
         };
+        crate::wake::notified(Rc::as_ptr(&self.st) as usize, queue);
         if let Some(mut f) = cb {
             f(queue);
             let mut s = self.st.borrow_mut();
@@ -151,6 +153,7 @@ impl Transport for ModelTransport {
             for q in s.queues.iter_mut() {
                 *q = QueueReg::default();
             }
+            crate::wake::unregister(Rc::as_ptr(&self.st) as usize, None);
         }
     }
     fn set_guest_page_size(&mut self, guest_page_size: u32) {
@@ -171,6 +174,7 @@ impl Transport for ModelTransport {
             s.queues.resize(q + 1, QueueReg::default());
         }
         s.queues[q] = QueueReg { size, desc: descriptors, driver: driver_area, device: device_area, set: true };
+        crate::wake::register(Rc::as_ptr(&self.st) as usize, queue, size, driver_area, device_area, s.driver_features & (1 << 29) != 0);
     }
     fn queue_unset(&mut self, queue: u16) {
         let mut s = self.st.borrow_mut();
@@ -179,6 +183,7 @@ impl Transport for ModelTransport {
         if q < s.queues.len() {
             s.queues[q] = QueueReg::default();
         }
+        crate::wake::unregister(Rc::as_ptr(&self.st) as usize, Some(queue));
     }
     fn queue_used(&mut self, queue: u16) -> bool {
         let mut s = self.st.borrow_mut();
